@@ -77,7 +77,8 @@ _DNA_FALLBACK = [("dna_string::verif::d_get_kmer_b_k64", "get_kmer Kmer64 on a 9
                  ("dna_string::verif::d_extend_b_0_33", "extend: empty prefix + 33 items"),
                  ("dna_string::verif::d_extend_b_32_1", "extend: 32-base prefix + 1 item"),
                  ("dna_string::verif::d_packed_add_b", "PackedDnaStringSet add/get")]
-_SLICE_FALLBACK = _DNA_FALLBACK + [("dna_string::verif::d_slice_hamming_1024", "hamming_dist length 1024"),
+_SLICE_FALLBACK = _DNA_FALLBACK + [("dna_string::verif::d_slice_eq_b", "slice == on two 6-base views of a 40-base string"),
+                                   ("dna_string::verif::d_slice_hamming_1024", "hamming_dist length 1024"),
                                    ("dna_string::verif::d_slice_render_3", "Display/Debug 3 bases")]
 UNIT_FALLBACK = {
     "dnastring": _DNA_FALLBACK,
@@ -171,7 +172,8 @@ PROPS["C15"] = {
     "kani": lambda tier: ["dna_string::verif::d_count_diff"] + kfam(["k_to_u64", "k_get", "k_rc"], "quick", 32, 32),
     "verus": [("dnaslice", None)],
     "bounded": lambda tier: [("dna_string::verif::d_slice_hamming_1024", "length == 1024, strings differ inside word 0 only"),
-                             ("dna_string::verif::d_slice_render_3", "3 bases, Display and Debug, both strands")],
+                             ("dna_string::verif::d_slice_render_3", "3 bases, Display and Debug, both strands"),
+                             ("dna_string::verif::d_slice_eq_b", "slice == on two 6-base views (symbolic offsets and strands) of a 40-base string")],
     "design_ref": "DESIGN.md §6 C15",
     "undecided": [],
     "trust": VERUS_TRUST + [SEAM_NOTE, "R4: core::fmt renders a char / String as itself (fmt::sink in prelude.rs)"],
@@ -281,12 +283,13 @@ PROPS["C05"] = {
     "title": "K-mer counting/filtering equals reference grouping for any pass count",
     "kani": lambda tier: ["filter::verif::%s::f_bucket" % t for t in (ALL_TYPES if tier == "thorough" else QUICK_TYPES) if K_OF[t] >= 4]
         + kfam(["k_canon", "k_min_rc"], tier, 4) + exts(["x_rc", "x_add", "x_merge", "x_mk"]),
-    "verus": [("passplan", None), ("obskernel", None), ("kmeriter", r"^KmerExtsIter::next$|^Vmer::iter_kmer_exts$")],
+    "verus": [("passplan", None), ("obskernel", None), ("summarize", None), ("kmeriter", r"^KmerExtsIter::next$|^Vmer::iter_kmer_exts$")],
     "bounded": lambda tier: [("filter::verif::f_count_filter", "<= 6 observations")],
     "design_ref": "DESIGN.md §6 C05",
     "undecided": [
         "the grouping step (per-bucket sort_by_key + itertools group_by + one summarize call per group + BoomHashMap2::new): iterator-adapter / third-party code neither verifier reaches, so 'each distinct k-mer summarised exactly once over exactly its observations in input order' is decided only up to 'every observation is recorded exactly once, under its canonical key, in that key's bucket, in the one pass that owns the bucket' (obskernel + passplan); the stable sort / group_by / summarize composition is NOT decided",
         "the two outer loops (over passes and reads) are not under contract; the payload `d.clone()` is unspecified",
+        "CountFilter::summarize: the step of its loop is proved (count capped at 65535, extensions a union - unit summarize); the loop over the caller's generic Iterator and the final threshold test are only in the bounded stand-in",
         "CountFilterSet::summarize (Vec sort + dedup) is intractable for CBMC even at 3 observations (12 GB, > 40 min): not decided"],
     "trust": VERUS_TRUST + [SEAM_NOTE, "R15: the pass-planning statement range of filter_kmers is verified inside a wrapper function of (kmer_mem, max_mem); max_mem > 0, kmer_mem < usize::MAX"],
     "level_text": "Decided parts: (1) pass planning - the real statement range of filter_kmers is proved to produce between 1 and 256 non-empty consecutive bucket ranges starting at 0 whose last one reaches 256, and a lemma shows every bucket 0..255 falls in exactly one pass under the half-open test, for every memory budget (Verus, unbounded); (2) bucket() is the rank of the first four bases, < 256 and monotone in k-mer order, for all k-mer values (Kani, complete); (3) per-observation canonicalisation with extension flip (Kani, complete) and the REAL body of the innermost observation loop of filter_kmers (rule R15, loop-body variant): each observation is pushed exactly once, under its canonical key, into bucket(key), iff that bucket belongs to the current pass, with extensions reverse-complemented exactly when the key is the opposite strand, and no other bucket is touched (Verus, unbounded); (4) the k-mer-with-extensions iterator pairs each k-mer with its true flanks and uses boundary extensions only at the ends (Verus, unbounded).",
@@ -323,10 +326,10 @@ PROPS["C08"] = {
     "kani": lambda tier: kfam(["k_min_rc", "k_to_u64", "k_rc"], tier, 2, 8) + exts(["x_from_slice_bounds"]) + lmer(["l_from_slice"], tier),
     "verus": [("scan", r"^(Scanner::(scan|lemma_same_bucket|lemma_same_bucket_rc|lemma_min_over_kmer|lemma_result|lemma_iv_mid|lemma_iv_last|lemma_pair)|Exts::from_slice_bounds|lemma_sub_window|lemma_sub_window_rc|lemma_flank_bits)$"),
               ("mspscore", None)],
-    "bounded": lambda tier: [],
+    "bounded": lambda tier: [("msp::verif::m_msp_sequence_short", "msp_sequence on reads of exactly k = 3, and k - 1, bases (P = Kmer2, DnaBytes pieces)")],
     "design_ref": "DESIGN.md §6 C08",
     "undecided": [
-        "msp_sequence itself (unwrap_or_else, closure score over the permutation table, into_iter().map().collect(), V::from_slice per piece): the composition 'each piece is the exact substring at (start, len)' is not under contract; its ingredients are (scan intervals: C07; flank extensions: from_slice_bounds; Lmer::from_slice: bounded Kani)",
+        "msp_sequence itself (unwrap_or_else, into_iter().map().collect(), V::from_slice per piece): the composition 'each piece is the exact substring at (start, len)' is only covered by a bounded stand-in on reads of k and k-1 bases (6 bases already exhaust CBMC); its ingredients are (scan intervals: C07; flank extensions: from_slice_bounds; Lmer::from_slice: bounded Kani)",
         "the glue between the pieces (msp_sequence passes exactly this closure to Scanner::new; the default permutation 0..4^p is a permutation) is by inspection, not a discharged obligation"],
     "trust": VERUS_TRUST + [SEAM_NOTE],
     "level_text": "Proved as lemmas over the verified contract of the real Scanner::scan (C07): for two scans - of any two reads - whose score functions agree and identify p-mers up to a class, two occurrences of the same k-mer (lemma_same_bucket) or an occurrence and a reverse-complement occurrence under a strand-symmetric score (lemma_same_bucket_rc) receive minimizers of the same class, hence the same bucket id (bucket = rank of the canonical minimizer; min_rc / to_u64 proved by Kani for all p-mer values). Exts::from_slice_bounds is proved to return exactly the read's two flanking bases and none at a read end, for every slice length (Verus, unbounded, real body). The REAL score closure of msp_sequence (statement extracted by rule R15) is proved to compute perm[rank x] resp. min(perm[rank x], perm[rank rc x]), and two lemmas show that such a score over an injective table is strand symmetric and identifies p-mers up to reverse complement - the hypotheses of the bucket lemmas.",
